@@ -23,7 +23,7 @@ open VaxisModel.Model.Render
 abbrev Line := Nat × String × String
 
 inductive Kind where
-  | if_ | switch_ | case_ | default_ | stmt | unknown
+  | if_ | switch_ | case_ | default_ | stmt | for_ | unknown
   deriving DecidableEq, Repr, Inhabited
 
 inductive Atom where
@@ -40,6 +40,10 @@ inductive Atom where
   | linkChanged | linkAssign | paramsAssign | linkEmpty | paramsClear | semiIndex | paramsCut | wrLink
   -- cell loop: glyph
   | nextWidth0 | setNextWidth | nextWide | wrSpace | wrExplicit | wrGrapheme
+  -- cell loop: the five colour / attribute / underline blocks, executed as wholes (`prune`)
+  | fgDelta | bgDelta | ulDelta | attrDelta | ulStyleDelta | cursorNextStyle
+  -- cell loop: the unchanged cell
+  | unchanged | skipAdvance | nullLoop | colSkip
   | none_       -- a `switch` / `default` line (no text)
   | unknown
   deriving DecidableEq, Repr, Inhabited
@@ -47,6 +51,7 @@ inductive Atom where
 def kindOf (k : String) : Kind :=
   if k = "if" then .if_ else if k = "switch" then .switch_ else if k = "case" then .case_
   else if k = "default" then .default_
+  else if k = "for" then .for_
   else if k = "assign" ∨ k = "write" ∨ k = "return" ∨ k = "continue" ∨ k = "call" then .stmt
   else .unknown
 
@@ -91,6 +96,16 @@ def atomOf (t : String) : Atom :=
   else if t = "vx.tw.WriteString(\" \")" then .wrSpace
   else if t = "fmt.Fprintf(vx.tw,explicitWidth,next.Width,next.Grapheme)" then .wrExplicit
   else if t = "vx.tw.WriteString(next.Grapheme)" then .wrGrapheme
+  else if t = "cursor.Foreground!=next.Foreground" then .fgDelta
+  else if t = "cursor.Background!=next.Background" then .bgDelta
+  else if t = "vx.caps.styledUnderlines" then .ulDelta
+  else if t = "cursor.Attribute!=next.Attribute" then .attrDelta
+  else if t = "cursor.UnderlineStyle!=next.UnderlineStyle" then .ulStyleDelta
+  else if t = "cursor=next.Style" then .cursorNextStyle
+  else if t = "next==vx.screenLast.buf[row][col]&&!vx.refresh&&col>=dirty" then .unchanged
+  else if t = "skip:=vx.advance(next)" then .skipAdvance
+  else if t = "i:=1;i<skip+1;i+=1" then .nullLoop
+  else if t = "col+=skip" then .colSkip
   else .unknown
 
 /-- `continue` has kind "continue" and no text. -/
@@ -98,6 +113,26 @@ def readLine (l : Line) : Nat × Kind × Atom :=
   (l.1, kindOf l.2.1, if l.2.1 = "continue" then Atom.continue_ else atomOf l.2.2)
 
 def prog (sk : List Line) : List (Nat × Kind × Atom) := sk.map readLine
+
+/-- The blocks executed as wholes: `if cursor.F != next.F { … }` for the colours, the attributes and the
+    underline style (their inner lines — `switch len(ps)`, `Printf` … — stay pinned by `facts_render`; the
+    attribute tables and the order are interpreted by `attrToks_from_source` / `penDelta_order`). -/
+def isMacro : Atom → Bool
+  | .fgDelta | .bgDelta | .ulDelta | .attrDelta | .ulStyleDelta => true
+  | _ => false
+
+/-- Replace each such `if` — and the loop `for i := 1; i < skip+1; i += 1 { … }` that nulls the `last`
+    entries of the cells a glyph covers (`Env.nulled`; the model's skip branch) — by one statement and drop
+    the lines nested under it. -/
+def prune (p : List (Nat × Kind × Atom)) : List (Nat × Kind × Atom) :=
+  (p.foldl (fun (st : List (Nat × Kind × Atom) × Option Nat) l =>
+      let keep : List (Nat × Kind × Atom) × Option Nat :=
+        if (l.2.1 = Kind.if_ ∧ isMacro l.2.2) ∨ (l.2.1 = Kind.for_ ∧ l.2.2 = Atom.nullLoop) then
+          ((l.1, Kind.stmt, l.2.2) :: st.1, some l.1)
+        else (l :: st.1, none)
+      match st.2 with
+      | some d => if d < l.1 then st else keep
+      | none => keep) ([], none)).1.reverse
 
 /-- The statement `(depth, kind, text)` of a skeleton together with the lines nested under it. -/
 def blockAt (sk : List Line) (depth : Nat) (kind text : String) : List Line :=
@@ -121,6 +156,9 @@ structure Env where
   link : String := ""
   linkPs : String := ""
   idx : Option Nat := none       -- `i` = strings.IndexByte(linkPs, ';') (none = -1)
+  refresh : Bool := false        -- vx.refresh
+  skipv : Nat := 0               -- `skip`
+  nulled : Nat := 0              -- how many following `last` entries the nulling loop was asked to clear
   w : Int := 0
   ret : Option Int := none
   cn : CursorState := {}
@@ -151,11 +189,12 @@ def evalG (cw : String → Nat) (caps : Caps) (a : Atom) (e : Env) : Env × Bool
   | .linkEmpty => (e, decide (e.link = ""))
   | .semiIndex => ({ e with idx := semiIndexL e.linkPs.toList }, (semiIndexL e.linkPs.toList).isSome)
   | .nextWidth0 => (e, e.next.w == 0)
+  | .unchanged => (e, decide (e.next = e.last) && !e.refresh && decide (e.col ≥ e.dirty))
   | .nextWide => (e, decide (e.next.w > 1) && caps.explicitWidth)
   | _ => ({ e with unknown := true }, false)
 
 /-- Statements. -/
-def evalS (cw : String → Nat) (a : Atom) (e : Env) : Env :=
+def evalS (cw : String → Nat) (caps : Caps) (a : Atom) (e : Env) : Env :=
   match a with
   | .setCellWidth => { e with next := { e.next with w := (cw e.next.g : Int) } }
   | .wAssign => { e with w := e.next.w - 1 }
@@ -185,6 +224,20 @@ def evalS (cw : String → Nat) (a : Atom) (e : Env) : Env :=
   | .wrSpace => { e with out := e.out ++ [Tok.text "20"] }
   | .wrExplicit => { e with out := e.out ++ [Tok.textW e.next.w e.next.g] }
   | .wrGrapheme => { e with out := e.out ++ [Tok.text e.next.g] }
+  | .fgDelta => { e with out := e.out ++ (if e.cursor.fg ≠ e.next.style.fg then colorToks caps 30 e.next.style.fg else []) }
+  | .bgDelta => { e with out := e.out ++ (if e.cursor.bg ≠ e.next.style.bg then colorToks caps 40 e.next.style.bg else []) }
+  | .ulDelta => { e with out := e.out ++
+      (if caps.styledUnderlines ∧ e.cursor.ul ≠ e.next.style.ul then ulColorToks caps e.next.style.ul else []) }
+  | .attrDelta => { e with out := e.out ++ attrToks e.cursor.attr e.next.style.attr }
+  | .ulStyleDelta => { e with out := e.out ++
+      (if e.cursor.ulStyle ≠ e.next.style.ulStyle then
+         (if caps.styledUnderlines then [Tok.sgr [[4, e.next.style.ulStyle]]]
+          else if e.next.style.ulStyle = 0 then [Tok.sgr [[24]]] else [Tok.sgr [[4]]])
+       else []) }
+  | .cursorNextStyle => { e with cursor := e.next.style }
+  | .skipAdvance => { e with skipv := advance cw e.next }
+  | .nullLoop => { e with nulled := e.skipv }
+  | .colSkip => { e with col := e.col + e.skipv }
   | _ => { e with unknown := true }
 
 /-! ### execution -/
@@ -203,7 +256,7 @@ def exec (cw : String → Nat) (caps : Caps) : Nat → List (Nat × Kind × Atom
         let r := evalG cw caps a e
         exec cw caps f after (if r.2 then exec cw caps f body r.1 else r.1)
     | .switch_ => exec cw caps f after (execArms cw caps f body e)
-    | .stmt => exec cw caps f after (evalS cw a e)
+    | .stmt => exec cw caps f after (evalS cw caps a e)
     | _ => { e with unknown := true }
 /-- The arms of a `switch`: the first `case` whose guard holds, else `default`. -/
 def execArms (cw : String → Nat) (caps : Caps) : Nat → List (Nat × Kind × Atom) → Env → Env
@@ -219,6 +272,10 @@ def execArms (cw : String → Nat) (caps : Caps) : Nat → List (Nat × Kind × 
     | .default_ => exec cw caps f body e
     | _ => { e with unknown := true }
 end
+
+/-- Run a block with the five colour / attribute / underline blocks as single statements. -/
+def runP (cw : String → Nat) (caps : Caps) (sk : List Line) (e : Env) : Env :=
+  exec cw caps (sk.length + 1) (prune (prog sk)) e
 
 /-- Run a block of a skeleton (fuel = number of lines + 1: every call consumes a line). -/
 def run (cw : String → Nat) (caps : Caps) (sk : List Line) (e : Env) : Env :=
